@@ -65,6 +65,10 @@ def problems(
     unit = 8 if far else 1  # energies are integers over eden; in the far class eden = 32
     if far:
         eden = 32
+    # integer-dtype class: H_0 and all terms are passed as integer arrays (dense or sparse)
+    int_dtype = (not far) and rep != "sympy" and draw(st.integers(0, 5)) == 0
+    if int_dtype:
+        eden = 1
     # --- spectrum, by construction
     base = 0
     offset = draw(st.integers(-12, 12)) * unit + (4096 * 32 if far else 0)
@@ -100,8 +104,8 @@ def problems(
     if all(e == 0 for e in energy) and all(e == 0 for e in eimag):
         energy = [e + eden for e in energy]  # an all-zero H_0 diagonal is rejected by design
     # --- perturbation terms
-    cplx = draw(st.booleans())
-    den = draw(st.sampled_from([1, 2, 2, 4]))
+    cplx = draw(st.booleans()) and not int_dtype
+    den = 1 if int_dtype else draw(st.sampled_from([1, 2, 2, 4]))
     if max_K is None:
         max_K = {1: 4, 2: 3, 3: 3}[n_params] if tier == "quick" else {1: 5, 2: 4, 3: 3}[n_params]
     if rep == "sympy":
@@ -193,6 +197,7 @@ def problems(
         "repr": rep,
         "K": K,
         "ref_shift": 4096 * 32 if far else 0,
+        "int_dtype": bool(int_dtype),
     }
 
 
@@ -276,12 +281,17 @@ def library_input(problem):
             ham[order_key(key)] = sympy.Matrix(N, N, lambda i, j: sympy.Rational(M[i][j][0], den) + sympy.I * sympy.Rational(M[i][j][1], den))
     else:
         Ev = np.array(energies(problem))
+        as_int = bool(problem.get("int_dtype")) and not cplx_e and den == 1 and ed == 1
         H0 = np.diag(Ev)
+        if as_int:
+            H0 = np.diag(np.array(problem["energy"], dtype=np.int64))
         ham = {zero: sparse.csr_array(H0) if rep == "sparse" else H0}
         for key, M in problem["terms"].items():
             A = np.array([[complex(M[i][j][0], M[i][j][1]) / den for j in range(N)] for i in range(N)])
             if not np.any(A.imag) and not cplx_e:
                 A = A.real.copy()
+                if as_int:
+                    A = A.astype(np.int64)
             ham[order_key(key)] = sparse.csr_array(A) if rep == "sparse" else A
     kwargs = {"subspace_indices": list(problem["assign"]), "hermitian": bool(problem["hermitian"])}
     sel = problem["selection"]
